@@ -110,6 +110,79 @@ def Group.write (r : Resources) (g : Group) : Out (List UInt8) :=
   | .ub s => .ub s
   | .diverge => .diverge
 
+/-! ### `write` into a sink that may accept fewer bytes than offered
+
+`write` hands its output to `dest` in a sequence of `dest.write_all(buf)?` calls: the 6 header bytes,
+one 16-byte record per entry, then the image bytes of every entry whose lookup succeeds.
+`io::Write::write_all` calls `write` until the buffer is empty. -/
+
+/-- the buffers of the `write_all` calls of the first loop (one record per entry) -/
+def writeEntryCalls (r : Resources) : List GroupEntry → Nat → List (List UInt8)
+  | [], _ => []
+  | e :: rest, imageOffset =>
+    (bytesAt r.sec e.off 12 ++ le32Bytes imageOffset) :: writeEntryCalls r rest (wadd32 imageOffset e.bytesInRes)
+
+/-- the buffers of the `write_all` calls of the second loop (failed lookups make no call) -/
+def writeImageCalls (r : Resources) (g : Group) : List GroupEntry → Out (List (List UInt8))
+  | [] => .ok []
+  | e :: rest =>
+    match g.image r e.nId with
+    | .ok res =>
+      match writeImageCalls r g rest with
+      | .ok more =>
+        match res with
+        | .ok b => .ok (bytesAt r.sec b.off b.len :: more)
+        | .error _ => .ok more
+      | o => o
+    | .err e => .err e
+    | .panic s => .panic s
+    | .ub s => .ub s
+    | .diverge => .diverge
+
+/-- all `write_all` calls of `write`, in order -/
+def Group.writeCalls (r : Resources) (g : Group) : Out (List (List UInt8)) :=
+  match g.entries r with
+  | .ok es =>
+    match writeImageCalls r g es with
+    | .ok images => .ok (bytesAt r.sec g.off 6 :: (writeEntryCalls r es (6 + es.length * 16) ++ images))
+    | o => o
+  | .err e => .err e
+  | .panic s => .panic s
+  | .ub s => .ub s
+  | .diverge => .diverge
+
+/-- what a sink holds after a sequence of calls, and whether `write` returned `Err(WriteZero)` -/
+structure SinkState where
+  received : List UInt8
+  failed : Bool
+  deriving DecidableEq, Repr
+
+-- src: std io::Write::write_all on a sink whose `write(buf)` accepts `min(n, buf.len())` bytes:
+-- `while !buf.is_empty() { match self.write(buf) { Ok(0) => return Err(WriteZero), Ok(k) => buf = &buf[k..], Err(e) => return Err(e) } }`
+def writeAllChunked (n : Nat) : Nat → List UInt8 → List UInt8 → Out SinkState
+  | _, sink, [] => .ok ⟨sink, false⟩
+  | 0, _, _ :: _ => .diverge
+  | fuel+1, sink, b :: bs =>
+    if n = 0 then .ok ⟨sink, true⟩
+    else writeAllChunked n fuel (sink ++ (b :: bs).take n) ((b :: bs).drop n)
+
+/-- `dest.write_all(buf)?` for every call in turn: the first error ends `write` -/
+def feedCalls (n : Nat) : List (List UInt8) → List UInt8 → Out SinkState
+  | [], sink => .ok ⟨sink, false⟩
+  | buf :: rest, sink =>
+    match writeAllChunked n buf.length sink buf with
+    | .ok st => if st.failed then .ok st else feedCalls n rest st.received
+    | o => o
+
+-- src: group.rs:GroupResource::write into a sink that accepts at most `n` bytes per call
+def Group.writeChunked (r : Resources) (g : Group) (n : Nat) : Out SinkState :=
+  match g.writeCalls r with
+  | .ok calls => feedCalls n calls []
+  | .err e => .err e
+  | .panic s => .panic s
+  | .ub s => .ub s
+  | .diverge => .diverge
+
 /-- one item of `icons()` / `cursors()` for a directory entry of the group directory -/
 def groupItem (r : Resources) (de : DirEntry) : Out (FRes (Name × Group)) :=
   liftE (de.getName r) fun name =>
